@@ -6,9 +6,9 @@ from vlib.core import qlit
 
 OBLIGATIONS = dict(
     prop_file='Properties/C05.v',
-    glue=['Glue/ScalarGlue.v', 'Glue/Pin_p_fsq_quantize.v', 'Glue/Pin_k_fsq_offset.v', 'Glue/EinopsGlueBase.v', 'Glue/EinopsGlueScalar.v'],
+    glue=['Glue/ScalarGlue.v', 'Glue/Pin_p_fsq_quantize.v', 'Glue/Pin_k_fsq_offset.v', 'Glue/EinopsGlueBase.v', 'Glue/EinopsGlueScalar.v'] + ['Glue/Pin_fp_C05.v'],
     extra=['Model/Scalar.vo'],
-    gen_items=['k_lfq_ste', 'k_fsq_bound', 'k_fsq_sym_bound', 'k_lfq_quantize', 'k_fsq_offset', 'p_fsq_quantize', 'k_fsq_half_width', 'pr_scalar'],
+    gen_items=['k_lfq_ste', 'k_fsq_bound', 'k_fsq_sym_bound', 'k_lfq_quantize', 'k_fsq_offset', 'p_fsq_quantize', 'k_fsq_half_width', 'pr_scalar', 'fp_C05'],
 )
 ASSUMPTIONS = [
     'libm tanh / atanh of torch (float32) are modelled by the real functions within delta = 2e-5 (in units of one level): a sample is accepted iff the real bound lies within [k - 1/2 - delta, k + 1/2 + delta] of the level k the implementation produced; '
